@@ -195,10 +195,24 @@ fn answer(view: &SourceView, want: &[&str], r: &Req, obs: &mut Obs) -> Result<()
                     obs.class_if(len16(&exp) > u64::from(s), "pair-cut-by-end-of-range");
                 }
                 RefSlice::InsidePair => {
-                    obs.class("col-inside-surrogate(crash-freedom only)");
-                    if let Some(g) = got {
-                        if !line.contains(g) {
-                            return Err(format!("get_line_slice({l}, {c}, {s}) = {g:?} is not a substring of line {line:?}"));
+                    // the statement does not say which half of the pair wins at the *start*; the end is
+                    // fixed by c+n alone: the answer is the slice with the pair (from one unit earlier) or
+                    // without it (from one unit later) - both stop where c+n says
+                    obs.class("col-inside-surrogate(start half-way: with or without the pair)");
+                    let with_pair = ref_slice(line, c - 1, s.saturating_add(1));
+                    let without = if s >= 1 { ref_slice(line, c + 1, s - 1) } else { RefSlice::Exactly(String::new()) };
+                    let mut ok: Vec<String> = vec![];
+                    for r in [with_pair, without] {
+                        if let RefSlice::Exactly(x) = r {
+                            ok.push(x);
+                        }
+                    }
+                    match got {
+                        Some(g) if ok.iter().any(|x| x == g) => {}
+                        other => {
+                            return Err(format!(
+                                "get_line_slice({l}, {c}, {s}) = {other:?} on line {line:?} (column inside a surrogate pair): the slice ends where c+n says, so it is one of {ok:?}"
+                            ))
                         }
                     }
                 }
@@ -636,7 +650,7 @@ pub const DEF: PropertyDef = PropertyDef {
            answered from the reference regardless of history; a panic is a failure. Non-trivial = text with >= 3 lines containing \
            a \\r\\n and a lone \\r, first request GetLine(i) with 2 <= i < n, and a GetLine of a missing line before a GetLine of a present one",
     assumptions: &[
-        "a slice whose column falls strictly inside a surrogate pair is executed for crash-freedom and 'a returned slice is a substring of the line' only (the statement does not say which half wins); it must still be nothing when the line is shorter than col + span",
+        "a column strictly inside a surrogate pair: the statement does not say which half wins at the start; accepted are the slice with and the slice without that pair, both ending where c+n says",
         "a slice is compared by value (the characters), not by its position inside the line",
         "CloneThenGetLine asks the clone for the line and then for its line count; the history continues on the original view",
     ],
